@@ -801,6 +801,11 @@ def gen_c18(seed, tier):
                  r.pick(["", "", "spid", r.pick(HOSTILE_FIELD)]),
                  "cb%04d-%s" % (mk, r.pick(["x"] + HOSTILE_FIELD).replace(" ", "_"))]
             evs.append({"k": k, "u": u, "t": t})
+            if r.chance(0.2):
+                # ... and, for the SAME user, an identifier whose text is a proper prefix of it (same other fields)
+                t3 = list(t)
+                t3[4] = t[4][:-r.randrange(1, 4)]
+                evs.append({"k": k, "u": u, "t": t3})
             if r.chance(0.25):
                 # ... and another user's identifier whose text differs from it only by surrounding white space
                 # (SP-provided / migrated identifiers are arbitrary strings)
